@@ -73,7 +73,8 @@ class Shape(object):
         return out
 
     def describe(self):
-        return {"name": self.name, "kind": self.kind, "fields": self.fields, "local": self.local,
+        return {"name": self.name, "kind": self.kind + (":" + getattr(self, "slot_style", "") if self.kind == "slots" else ""),
+                "fields": self.fields, "local": self.local,
                 "base": self.base.describe() if self.base else None}
 
     def build(self):
@@ -82,7 +83,17 @@ class Shape(object):
         bases = (self.base.build(),) if self.base else (object,)
         ns = {}
         if self.kind == "slots":
-            ns["__slots__"] = tuple(self.fields)
+            style = getattr(self, "slot_style", "tuple")
+            if style == "string" and len(self.fields) == 1:
+                ns["__slots__"] = self.fields[0]          # one slot declared by a plain string
+            elif style == "list":
+                ns["__slots__"] = list(self.fields)
+            elif style == "weakref" and all(s.kind == "slots" and getattr(s, "slot_style", "") != "weakref"
+                                            for s in self.chain()[:-1]):
+                # the usual way of making a slotted class weak-referenceable: not a field
+                ns["__slots__"] = tuple(self.fields) + ("__weakref__",)
+            else:
+                ns["__slots__"] = tuple(self.fields)
         if self.kind in ("serialize-list", "serialize-dict"):
             shape = self
             ctor_fields = [a for _, a in shape.all_fields()][:2]
@@ -143,6 +154,8 @@ def gen_shape(rng, local=None, depth=None, kinds=("dict", "slots"), serialize=Fa
         kind = rng.choice(kinds)
         name = "%s%d_%d" % (rng.choice(["Bean", "_Under", "K"]), uid, level)
         base = Shape(name, kind, fields, base, local, mod)
+        if kind == "slots":
+            base.slot_style = rng.choice(["tuple", "tuple", "list", "string", "weakref"])
     return base
 
 
